@@ -215,7 +215,8 @@ def run(ctx, widen=False):
                          ("uninterleave", lambda: E.uninterleave(list(l), CTX)), ("prefixes", lambda: E.divisors_or_prefixes(l, CTX)),
                          ("group", lambda: E.group_consecutive(list(l), CTX)), ("counts", lambda: E.counts(l, CTX)), ("sort", lambda: E.vy_sort(l, CTX)),
                          ("sum", lambda: E.vy_sum(l, CTX)), ("product", lambda: E.product(l, CTX)), ("reverse", lambda: E.reverse(l, CTX)),
-                         ("gradeup", lambda: E.grade_up(list(l), CTX)), ("gradedown", lambda: E.grade_down(list(l), CTX))]:
+                         ("gradeup", lambda: E.grade_up(list(l), CTX)), ("gradedown", lambda: E.grade_down(list(l), CTX)),
+                         ("max", lambda: E.monadic_maximum(list(l), CTX)), ("min", lambda: E.monadic_minimum(list(l), CTX))]:
             lines.append(f"ls\t{fn}|{S(l)}|"); exp.append(safe(call))
         for k in (1, 2, 3):
             lines.append(f"ls\twrap|{S(l)}|{k}"); exp.append(safe(lambda: E.wrap(list(l), k, CTX)))
